@@ -36,8 +36,9 @@ RULE = ("vec.* cases: (a) for every length 0..8 (rationals) one history containi
         "constant negative, alternating +-c, one non-zero entry first / last, negative maximum first / last; lengths 1, 2, 3, 8), norm-laws-structured "
         "(v = u, v = -u, v = 0; c = 0, 1, -1, 2, 1/2), complex-structured (entries on the axes, unit modulus, equal moduli), sort-ord-structured (sorted, "
         "reversed, constant, two values; lengths 0, 1, 2), f64-times-vector-structured, constructors-structured; "
-        "floats of a history are compared with the list model ITEM BY ITEM (veclib.result_scales / dump_scales): moved / copied / negated entries identical, element-wise products and "
-        "quotients within 1e-12 of the item itself, element-wise sums within 1e-12 of the larger operand, reductions within 1e-12 of the sum of the magnitudes of their terms; "
+        "floats of a history are compared with the list model ITEM BY ITEM (veclib.result_scales / carried_scales): element-wise products and "
+        "quotients within 1e-12 of the item itself, element-wise sums within 1e-12 of the larger operand, reductions within 1e-12 of the sum of the magnitudes of their terms, "
+        "moved / copied / negated entries identical when they are inputs and within the scale they were computed with otherwise (the scale travels with the entry); "
         "a history the list model cannot follow (python OverflowError) is not judged and is counted (oracle_histories_not_judged); "
         "distinct = distinct executor line; non-trivial = non-empty vector or an operation that must panic")
 TRUSTED = ["Coq 8.16.1 kernel + vm_compute (primitive floats: bit-exact IEEE binary64)", "Flocq 4 (IEEE754.PrimFloat, BinarySingleNaN) and Coq's FloatAxioms for the two *_exact_float theorems", "Rust executor /verif/harness (kinds vec.*; Rat = i128 rationals)",
@@ -871,7 +872,7 @@ def oracle(case, items):
             NOT_JUDGED[case.family] = NOT_JUDGED.get(case.family, 0) + 1
             return None
         JUDGED[0] += 1
-        # floats item by item against the item's own error scale (veclib.result_scales / dump_scales), not the largest of the run
+        # floats item by item against the item's own error scale (veclib.result_scales / carried_scales), not the largest of the run
         d = streams_match(exp, items, 0.0 if elt == 'rat' else 1e-12, sc)
         if d: return "vector history disagrees with the plain list model: " + d
         return None
